@@ -1189,7 +1189,7 @@ func c10Rows(p *Prog, r *Report) {
 	}
 	// the peers loop ranges over proxy.nodes and skips exactly the local node
 	skipOK, countOK := false, false
-	for _, sf := range withCallees(p, fn, 2) {
+	for _, sf := range withCallees(p, fn, 4) {
 		eachInstr(sf, func(in ssa.Instruction) {
 			if bo, ok := in.(*ssa.BinOp); ok && (bo.Op == token.NEQ || bo.Op == token.EQL) {
 				fx, _ := loadedField(bo.Y)
